@@ -167,6 +167,10 @@ class FakeLock(object):
         return False
 
 
+class ServerStall(Exception):
+    """one iteration of the real server loop did not return: it blocks or spins (a finding, with the choice list attached)"""
+
+
 class Baton(object):
     """cooperative hand-off between the harness thread and ONE server thread.
 
@@ -178,6 +182,8 @@ class Baton(object):
         self.to_server = threading.Semaphore(0)
         self.to_harness = threading.Semaphore(0)
         self.dead = False
+        self.stalled = False
+        self.stall_timeout = 20
         self.error = None
         self.where = None  # label of the current pause point
 
@@ -189,11 +195,12 @@ class Baton(object):
 
     # called on the harness thread
     def resume(self):
-        if self.dead:
+        if self.dead or self.stalled:
             return False
         self.to_server.release()
-        if not self.to_harness.acquire(timeout=60):
-            raise RuntimeError("HARNESS-ERROR: server thread did not come back to a pause point within 60 s (at %s)" % self.where)
+        if not self.to_harness.acquire(timeout=self.stall_timeout):
+            self.stalled = True
+            raise ServerStall("server thread did not come back to a pause point within %d s (last pause: %s)" % (self.stall_timeout, self.where))
         return not self.dead
 
 
